@@ -96,7 +96,15 @@ class ReqRun:
         self.ev_n = {}
         self.half = {}           # conn id -> remaining bytes of a split response
         self.loop_exceptions = []
-        self.loop.set_exception_handler(lambda l, c: self.loop_exceptions.append(str(c.get("exception") or c.get("message"))))
+        def on_loop_exception(l, c):
+            ex = c.get("exception")
+            self.loop_exceptions.append(str(ex or c.get("message")))
+            if ex is not None and not isinstance(ex, IndexError) and not (self.events and self.events[-1].get("ev") == "end"):
+                # (an unsolicited response finds no waiting request: IndexError out of data_received, the loop tears the
+                # transport down - that is how the connection is abandoned and it is in the specification.)  Any other
+                # exception escaping from the library into the event loop is an event no step of the specification explains.
+                self.log("loop_exc", what=f"{type(ex).__name__}: {ex or c.get('message')}"[:160])
+        self.loop.set_exception_handler(on_loop_exception)
 
     # ---- logging (tcp-level events of the connector are not part of this alphabet)
     def log(self, ev, **kw):
